@@ -35,6 +35,12 @@ def analyse(fn):
         raise AnalysisError("dual1: the loop filling the coefficient arrays was not found")
     outer = loops[0]
     DOF = outer.target.id
+    # the coarse support mask: the array set True at <coarse space>.support_elements (by role, not by name)
+    masks = {unparse(s.targets[0].value) for s in fn.body if isinstance(s, ast.Assign) and isinstance(s.targets[0], ast.Subscript) and isinstance(s.targets[0].value, ast.Name)
+             and unparse(s.targets[0].slice).endswith(".support_elements") and isinstance(s.value, ast.Constant) and s.value.value is True}
+    if len(masks) != 1:
+        raise AnalysisError("dual1: the coarse support mask (set True at <coarse space>.support_elements) was not found")
+    SUPP = masks.pop()
     KEEP = tuple({n.id for n in ast.walk(fn) if isinstance(n, ast.Name)})
     S = roles.stores(outer.body, defs, keep=KEEP, lv=False)
     st = {a: [s for s in S if s.op == "=" and isinstance(s.tnode, ast.Subscript) and unparse(s.tnode.value) == a] for a in (VAL, ROW, COL)}
@@ -111,7 +117,7 @@ def analyse(fn):
         if X:
             d = defs.lookup(posmap, fd.node.lineno) if posmap else None
             okpos = posmap is not None and _is_position_map(fn, posmap)
-            guard = (roles.expect("coarse_support[X]", defs, fd.node.lineno, keep=KEEP, lv=False, X=X), True)
+            guard = (roles.expect("S[X]", defs, fd.node.lineno, keep=KEEP, lv=False, S=SUPP, X=X), True)
             okg = guard in fd.guards
             out.append((sec + ": position looked up for an element of the support", okpos and okg,
                         "position `%s` (a position map of the support: %s) is used under guards %s, expected a test that element `%s` is in the coarse support" % (unparse(fd.vnode), okpos, [g[0][:40] for g in fd.guards], X), fd.node.lineno))
@@ -168,6 +174,7 @@ def dual1_assembly(ctx):
 
 _POSITIVE = '''
 def f(grid, coarse_space, coarse_support, support_elements):
+    coarse_support[coarse_space.support_elements] = True
     support_numbers = {j: i for i, j in enumerate(support_elements)}
     count = 0
     for d in range(coarse_space.global_dof_count):
